@@ -2206,6 +2206,17 @@ func (e *CoreExtension) filterRound(value interface{}, args ...interface{}) (int
 		}
 	}
 
+	// An integer rounded to whole numbers or to decimals is that integer; a
+	// float64 cannot hold every int64 or uint64
+	if precision >= 0 {
+		switch rv := reflect.ValueOf(value); rv.Kind() {
+		case reflect.Int, reflect.Int8, reflect.Int16, reflect.Int32, reflect.Int64:
+			return rv.Int(), nil
+		case reflect.Uint, reflect.Uint8, reflect.Uint16, reflect.Uint32, reflect.Uint64, reflect.Uintptr:
+			return rv.Uint(), nil
+		}
+	}
+
 	// Parse rounding method argument
 	if len(args) > 1 {
 		if m, ok := args[1].(string); ok {
@@ -2216,8 +2227,9 @@ func (e *CoreExtension) filterRound(value interface{}, args ...interface{}) (int
 	// Apply rounding
 	result := roundDecimal(num, precision, method)
 
-	// If precision is 0, return an integer
-	if precision == 0 {
+	// If precision is 0, return an integer (a result beyond the range of int
+	// stays a float: the conversion would wrap it around)
+	if precision == 0 && math.Abs(result) < 1<<63 {
 		return int(result), nil
 	}
 
